@@ -108,6 +108,11 @@ def make_signal(spec, dtype=np.float64, n=None):
         # large dynamic range over time: a loud first part, then a part ~90 dB lower (still far above round-off)
         x = rng.standard_normal(n) * scale
         x[: n // 2] *= 3e4 if np.dtype(dtype).itemsize > 2 else 100.0  # half precision overflows at 65504
+    elif kind == "very_loud_quiet":
+        # (opt-in) nine orders of magnitude between the first and the second half: sums running over the whole signal
+        # lose the quiet part completely, sums taken per frame do not
+        x = rng.standard_normal(n) * 1e-3
+        x[: n // 2] *= 1e9 if np.dtype(dtype).itemsize > 4 else 1e4
     elif kind == "gated":
         # noise with one or two runs of exact zeros (digital silence, zero padding, a noise gate)
         x = rng.standard_normal(n) * scale
@@ -188,7 +193,8 @@ def bank_specs(draw, kinds=BANK_KINDS, rates=RATES, max_filts=12, min_filts=1, a
         spec["order"] = draw(st.sampled_from(list(orders)))
         spec["max_centered"] = draw(st.booleans())
     # how whole-number parameters are passed: as floats (usual), as Python ints, or as numpy scalars
-    spec["numtype"] = draw(st.sampled_from(["float", "float", "float", "int", "numpy"]))
+    # ... or the whole bank is built from its configuration mapping (alias route), as configuration files do
+    spec["numtype"] = draw(st.sampled_from(["float", "float", "float", "int", "numpy", "mapping"]))
     return spec
 
 
@@ -199,6 +205,10 @@ def build_bank(spec):
     kw = dict(num_filts=spec["num_filts"], high_hz=spec["high_hz"], low_hz=spec["low_hz"],
               sampling_rate=spec["sampling_rate"])
     nt = spec.get("numtype", "float")
+    if nt == "mapping":
+        from pydrobert.speech.alias import alias_factory_subclass_from_arg
+
+        return alias_factory_subclass_from_arg(filters.LinearFilterBank, bank_config(spec))
     if nt != "float":
         for k in ("low_hz", "high_hz", "sampling_rate"):
             v = kw[k]
@@ -206,17 +216,20 @@ def build_bank(spec):
                 kw[k] = int(v) if nt == "int" else (np.int64(int(v)) if k != "sampling_rate" else np.float64(v))
         if nt == "numpy":
             kw["num_filts"] = int(kw["num_filts"])
+    # flags arrive as Python bools, or (with the other argument types) as 0 / 1 and as numpy booleans (the result of a
+    # comparison or of np.any): a flag is whatever is truthy
+    flag = (lambda k: bool(spec.get(k, False))) if nt == "float" else (
+        (lambda k: int(bool(spec.get(k, False)))) if nt == "int" else (lambda k: np.bool_(bool(spec.get(k, False)))))
     if kind == "tri":
-        return filters.TriangularOverlappingFilterBank(build_scale(spec["scale"]), analytic=spec.get("analytic", False), **kw)
+        return filters.TriangularOverlappingFilterBank(build_scale(spec["scale"]), analytic=flag("analytic"), **kw)
     if kind == "fbank":
-        return filters.Fbank(analytic=spec.get("analytic", False), **kw)
+        return filters.Fbank(analytic=flag("analytic"), **kw)
     if kind == "gabor":
-        return filters.GaborFilterBank(build_scale(spec["scale"]), scale_l2_norm=spec.get("scale_l2_norm", False),
-                                       erb=spec.get("erb", False), **kw)
+        return filters.GaborFilterBank(build_scale(spec["scale"]), scale_l2_norm=flag("scale_l2_norm"), erb=flag("erb"), **kw)
     if kind == "gammatone":
         return filters.ComplexGammatoneFilterBank(
-            build_scale(spec["scale"]), order=spec.get("order", 4), max_centered=spec.get("max_centered", False),
-            scale_l2_norm=spec.get("scale_l2_norm", False), erb=spec.get("erb", False), **kw)
+            build_scale(spec["scale"]), order=spec.get("order", 4), max_centered=flag("max_centered"),
+            scale_l2_norm=flag("scale_l2_norm"), erb=flag("erb"), **kw)
     raise core.HarnessError("unknown bank kind %r" % kind)
 
 
